@@ -164,7 +164,8 @@ class Report:
         self.violations = []
         self.known = {}
         self.t0 = time.time()
-        self.findings = [f for f in load_findings() if f.get("status") == "known" and pid in f.get("properties", [f.get("property")])]
+        # a known finding is recognised by the signature of the failing case, whichever check meets it
+        self.findings = [f for f in load_findings() if f.get("status") == "known"]
 
     def violation(self, obj, sig=None):
         """obj: replay record.  sig: dict describing the failing case, matched against known findings."""
